@@ -133,6 +133,11 @@ type Check struct {
 	BFS bool
 	// Finish may add property-specific coverage keys once all results are in.
 	Finish func(tier string, cov map[string]any, totals map[string]int64)
+	// RegressionReplays are recorded counterexamples of repaired defects (paths relative to the verif
+	// directory). Each is replayed in a fresh process on every run - some defects depend on process-global
+	// state that only a fresh process has - and reported again if it reproduces. A replay that no longer
+	// fits the code under test (different choice points) says nothing and is ignored.
+	RegressionReplays []string
 }
 
 // ---- known findings ---------------------------------------------------------
@@ -772,8 +777,24 @@ func coordinate(c *Check, tier string, seed int) int {
 		return 2
 	}
 
-	// confirm unknown violations in fresh processes
+	// recorded counterexamples of repaired defects, each in a fresh process
 	exit := 0
+	for _, rel := range c.RegressionReplays {
+		path := filepath.Join(VerifDir(), rel)
+		if _, err := os.Stat(path); err != nil {
+			continue
+		}
+		cmd := exec.Command(os.Args[0], "--replay", path)
+		cmd.Env = append(os.Environ(), "GORACE=log_path="+filepath.Join(scratch, "race-regress")+" halt_on_error=0")
+		out, _ := cmd.CombinedOutput()
+		totals["regression_replays"]++
+		if strings.Contains(string(out), "reproduced=true") {
+			fmt.Printf("violation: recorded counterexample %s reproduces again\n  %s\n", rel, trunc(strings.TrimSpace(string(out)), 600))
+			fmt.Printf("VIOLATION property=%s replay=%s\n", c.ID, path)
+			exit = 1
+		}
+	}
+	// confirm unknown violations in fresh processes
 	sort.Slice(viols, func(i, j int) bool {
 		return len(viols[i].Choices)+len(viols[i].History) < len(viols[j].Choices)+len(viols[j].History)
 	})
